@@ -624,6 +624,16 @@ def show_expr(e, depth=0):
     return str(k)
 
 
+_LT = __import__("re").compile(r"'[a-z_]\w* ?")
+
+
+def norm_ty(t):
+    """Type string without named lifetimes: `&'a Value` → `&Value`, `Parsed<'a>` stays `Parsed<'_>`-like."""
+    t = t.replace("<'_>", "<'_>")
+    t = _LT.sub(lambda m: "" if not m.group(0).startswith("'_") else m.group(0), t)
+    return t.replace("<>", "")
+
+
 class Facts:
     def __init__(self, path):
         with open(path) as fh:
@@ -633,6 +643,12 @@ class Facts:
         self.features = self.j["features"]
         self.adts = self.j["adts"]
         self.items = {it["key"]: it for it in self.j["items"]}
+        for it in self.items.values():
+            if "inputs" in it:
+                it["inputs_raw"] = list(it["inputs"])
+                it["inputs"] = [norm_ty(x) for x in it["inputs"]]
+            if "output" in it:
+                it["output"] = norm_ty(it["output"])
         self.unsafe_blocks = self.j["unsafe_blocks"]
         self.bodies = {}
         for b in self.j["bodies"]:
